@@ -926,6 +926,11 @@ def apply_op(w: World, op: list, t: List[int]):
         w.env.step(op[1] % w.env.action_space.n)
     elif kind == "gstep":
         # the scripted-agents loop `PrimaiteGame.step()` (the proxy agent replays the action stored last)
+        try:
+            if w.env.agent.most_recent_action is None:
+                w.env.agent.store_action(0)     # a first step through the game loop: the proxy agent has nothing stored yet
+        except Exception:
+            pass
         w.env.game.step()
     elif kind == "ping":
         w.nodes[op[1]].ping(w.ip[op[2]], pings=op[3] if len(op) > 3 else 1)
@@ -1339,7 +1344,7 @@ def run_impl(case: dict, inventory=None) -> dict:
                 # not a violation (see C18_air_two_names_counterexample): the hz is above the capacity of its smaller name
                 bump("hz-load-above-the-smaller-of-two-name-capacities")
 
-    def step_checks(oi: int, forest: List[dict]):
+    def step_checks(oi: int, forest: List[dict], err=None):
         """The tick of the property is the STEP of the environment (`PrimaiteGymEnv.step` / `PrimaiteGame.step`): looked at as a
         whole and WITHOUT relying on where the recorder saw `Network.pre_timestep` — (1) the first thing a step does to the network
         is the reset, once: no frame is sent and no interface toggled before it, and it is not repeated in mid-step; (2) the first
@@ -1350,6 +1355,9 @@ def run_impl(case: dict, inventory=None) -> dict:
         traffic_before = [e["t"] for e in forest[:resets[0]]] if resets else [e["t"] for e in forest]
         if len(resets) != 1 or resets[0] != 0:
             what = ("no-reset" if not resets else "reset-not-first" if resets[0] != 0 else "reset-repeated")
+            if err and not resets:
+                # the step raised before it got to a reset (e.g. the agents' actions ran first and one of them raised)
+                what = "no-reset-before-the-step-raised: " + str(err)[:80]
             oracle.append({"kind": "step-does-not-start-with-the-tick-reset", "op": oi, "medium": "any", "what": what,
                            "resets": len(resets), "events_before_the_reset": traffic_before[:6]})
         first = {}
@@ -1450,7 +1458,7 @@ def run_impl(case: dict, inventory=None) -> dict:
                     end_of_op_checks(oi, "after-exception")
                     break
             if op[0] in ("step", "gstep"):
-                step_checks(oi, forest)
+                step_checks(oi, forest, err)
             seg: List[dict] = []
             for e in forest:
                 if e["t"] not in ("T", "B", "C"):
